@@ -15,6 +15,7 @@ def hexChars (cs : List Char) : String := hex (String.ofList cs).toUTF8.toList
 def showErr : Err → String
   | .extenderWithoutCommand l => s!"error:extender:{l}"
   | .exitCodeTwice l => s!"error:exit-twice:{l}"
+  | .exitCodeOutOfRange l => s!"error:exit-range:{l}"
   | .expectationParse l => s!"error:exp-parse:{l}"
   | .noShellExpression l => s!"error:no-shell:{l}"
   | .exitCodeWithoutCommand l => s!"error:exit-no-shell:{l}"
